@@ -759,6 +759,9 @@ pub fn run_k14(tier: &str, seed: u64, out: &str) {
             if leaked { rep.oracle_fail("credentialWithoutScheme", vec![], &case, &format!("{} {}: {}", op.method, op.path, req)); } else { rep.bump("k14_unsecured_ok"); }
             return;
         }
+        // the examples build their client with from_env(), which takes the first declared requirement: when that is the empty
+        // requirement the call is anonymous by the document's own choice
+        if c.doc["security"].as_array().and_then(|a| a.first()).and_then(|r| r.as_object()).map(|o| o.is_empty()).unwrap_or(false) { rep.bump("k14_first_requirement_is_anonymous"); return; }
         // D: apiKey (header / query / cookie), http bearer / basic, oauth2
         if schemes.values().any(|s| s["type"] == serde_json::json!("http") && !matches!(s["scheme"].as_str().map(|x| x.to_lowercase()).as_deref(), Some("bearer") | Some("basic"))) { rep.bump("k14_outside_D_http_scheme"); return; }
         let mut satisfied = false;
